@@ -14,31 +14,33 @@ import KojenVerif.Model.EmitSml
   real implementation and diffs.
 
   Strings travel as JSON strings.  Lean's `Char` cannot hold a surrogate code point, and
-  Python's `surrogateescape` produces exactly those, so the harness maps U+D800–U+DFFF to
-  the private-use block U+E000–U+E7FF (and refuses inputs that contain that block); the
-  driver maps back, so the model sees the code points Python sees.
+  Python's `surrogateescape` produces exactly those, so a string containing one travels as
+  the object {"$s": [code points]} in both directions.
 -/
 open Lean KojenVerif
 
 namespace Driver
 
-def decC (n : Nat) : Nat := if 0xE000 ≤ n ∧ n ≤ 0xE7FF then n - 0x800 else n
-def encC (n : Nat) : Nat := if 0xD800 ≤ n ∧ n ≤ 0xDFFF then n + 0x800 else n
+def toStr (s : String) : Str := s.toList.map (fun c => c.toNat)
+def ofStr (s : Str) : String := String.ofList (s.map (fun n => Char.ofNat n))
 
-def toStr (s : String) : Str := s.toList.map (fun c => decC c.toNat)
-def ofStr (s : Str) : String := String.ofList (s.map (fun n => Char.ofNat (encC n)))
-
-def jStr (s : Str) : Json := Json.str (ofStr s)
+/-- strings with a surrogate code point cannot be Lean Strings: they travel as {"$s": [code points]} -/
+def jStr (s : Str) : Json :=
+  if s.any (fun n => 0xD800 ≤ n ∧ n ≤ 0xDFFF) then
+    Json.mkObj [("$s", Json.arr (s.map (fun n => Json.num (JsonNumber.fromNat n))).toArray)]
+  else Json.str (ofStr s)
 def jStrs (l : List Str) : Json := Json.arr (l.map jStr).toArray
+
+def asStr (j : Json) : Except String Str :=
+  match j with
+  | Json.str s => pure (toStr s)
+  | _ => do
+    let a ← (← j.getObjVal? "$s").getArr?
+    a.toList.mapM (fun x => x.getNat?)
 
 def getStr (j : Json) (k : String) : Except String Str := do
   let v ← j.getObjVal? k
-  let s ← v.getStr?
-  pure (toStr s)
-
-def asStr (j : Json) : Except String Str := do
-  let s ← j.getStr?
-  pure (toStr s)
+  asStr v
 
 def asStrs (j : Json) : Except String (List Str) := do
   let a ← j.getArr?
